@@ -9,6 +9,9 @@ LEVEL_NOTE = ('bounded: four 8-bit encodings (utf-8, iso-8859-1, koi8-r, cp1251)
 TECHNIQUE = ('bounded run-time contracts over exhaustively enumerated configuration matrices; the oracle is the precedence ladder of the statement and a reference CSS un-escaper, evaluated on the '
              'unmodified cssutils code')
 LEVEL_TEXT = LEVEL_TEXT + ' The encoding precedence ladder of util._readUrl and the css codec decode/encode are additionally proved for all inputs by PyVC (obligations/discharged in the evidence); the claim level stays exploration because nested-import hand-over and the serialisation clauses are bounded.'
+LEVEL_TEXT = LEVEL_TEXT + (' Imports resolved after the parse: histories parse (every entry / configuration that gives a sheet its first encoding, top sheet or imported sheet) ; change the '
+                           'encoding (every mutator) ; load a new import (href setter, rule cssText, insertRule / add of text, insertRule of rule objects) - the late sheet follows the encoding the '
+                           'referring sheet reports at that moment.')
 DESIGN_REF = 'DESIGN.md section 3, C08'
 
 
@@ -17,6 +20,7 @@ def bounded(ctx):
     c08.imports_matrix(ctx)
     c08.toplevel(ctx)
     c08.chains(ctx)
+    c08.late_imports(ctx)
     c08.utf16_rows(ctx)
     c08.encoding_attribute(ctx)
     c08.serialisation(ctx)
